@@ -18,6 +18,35 @@ from typing import Dict, List, Optional, Tuple
 PKG = "soundevent"
 
 
+class _PlainKeywords(ast.NodeTransformer):
+    """f(**{"a": x, "b": y}) with a literal dictionary of constant string keys is f(a=x, b=y): every reader (declarations, rules,
+    the summariser) sees the plain keywords"""
+
+    def visit_Call(self, node):
+        self.generic_visit(node)
+        if any(k.arg is None and isinstance(k.value, ast.Dict) and k.value.keys and all(isinstance(kk, ast.Constant) and isinstance(kk.value, str)
+                                                                                          and kk.value.isidentifier() for kk in k.value.keys)
+               for k in node.keywords):
+            kws = []
+            for k in node.keywords:
+                if k.arg is None and isinstance(k.value, ast.Dict) and k.value.keys and all(
+                        isinstance(kk, ast.Constant) and isinstance(kk.value, str) and kk.value.isidentifier() for kk in k.value.keys):
+                    for kk, vv in zip(k.value.keys, k.value.values):
+                        kws = [q for q in kws if q.arg != kk.value]
+                        kws.append(ast.copy_location(ast.keyword(arg=kk.value, value=vv), k))
+                else:
+                    kws.append(k)
+            node.keywords = kws
+        return node
+
+
+def _plain_keywords(tree):
+    try:
+        return ast.fix_missing_locations(_PlainKeywords().visit(tree))
+    except Exception:  # noqa: BLE001
+        return tree
+
+
 class AnalysisError(Exception):
     """The analysis cannot decide (unrecognised idiom, vanished anchor, internal error)."""
 
@@ -107,7 +136,7 @@ class Module:
         self.relpath = relpath
         self.src = src
         self.is_pkg = is_pkg
-        self.tree = ast.parse(src, filename=path)
+        self.tree = _plain_keywords(ast.parse(src, filename=path))
         self.defs: Dict[str, List[ast.AST]] = {}
         self.imports: Dict[str, Tuple[str, Optional[str]]] = {}
         self.classes: Dict[str, ClassInfo] = {}
